@@ -21,7 +21,8 @@ MORE = [('GenSplit.v', 'slisting', 'stemplate',
         ('GenIf.v', 'ilisting', None, 'unsigned char a, b, c;'),
         ('GenCtl.v', 'clisting', None, 'unsigned char a, b, c, i;'),
         # calls: a comment `function NAME` pins the body of that function instead of a statement of main
-        ('GenCall.v', 'flisting', None, CALL_DECL)]
+        ('GenCall.v', 'flisting', None, CALL_DECL),
+        ('GenTruth.v', 'tlisting', None, 'unsigned char a, b, c; unsigned short s, t, u;')]
 
 
 def more_listings():
